@@ -7,25 +7,25 @@ from units import PROP_UNITS
 
 T = 'contract-based deductive verification: Verus (Z3) discharges requires/ensures/invariant obligations on functions, closure bodies and statement ranges extracted verbatim from /repo/src on every run'
 CLAIMS = {
- 'C01': ('sections 3.2, 3.4, 4 (C01), 5 (KF1)', 'For all operands: union/concatenate never lose a word of either operand, rotation of alternatives keeps the language, case conversion keeps the code-point count, every grapheme cluster containing a backslash is split, Dfa::insert marks the reached state (the start state for the empty test case), recreate_graph keeps accepting states (fails on the unchanged tree: KNOWN-FINDING KF1, replayed on the real library each run).', 'Trie edges (find_next_state/add_new_state), the Hopcroft refinement loop, the elimination loop of Expression::from, printing/escaping and the regex crate parser are stage contracts that are assumed, not proved.'),
- 'C02': ('sections 3.2, 3.4, 4 (C02)', 'For all expression trees: union, concatenate and remove_common_substring are language-exact (equalities in the language algebra of Appendix A, all lemmas proved); recreate_graph creates no new accepting state and maps the start state.', 'Assumed contracts of find_common_substring, remove_substring, new_alternation, new_character_class, is_single_codepoint; Hopcroft merging, format.rs parenthesisation and anchors as parsed by the regex crate are not decided.'),
- 'C03': ('section 4 (C03)', 'The per-code-point conversion chain of convert_to_char_classes equals the documented precedence for every scalar value and all 64 flag subsets; the six flag reads bind the like-named config fields; every converted token denotes a class containing the character.', 'map/join plumbing around the closure; transport of class tokens through dfa.rs; is_digit/is_word/is_space equal the tables (discharged under C09).'),
- 'C04': ('section 4 (C04)', 'Lower-casing happens exactly when the code-point count is preserved; the (?i)/(?ix)/(?x) flag component is chosen correctly for all configurations.', 'std to_lowercase vs the regex crate folding tables (known to differ for letters cased after Unicode 15) is not decidable here.'),
- 'C07': ('section 4 (C07)', 'No unwrap-on-None, out-of-range index, overflow or violated callee precondition in any function under contract; threshold panics unreachable for positive arguments; CLI parser rejects 0; backslash split rule.', 'Self-check unwraps in regexp.rs, drain/splice ranges in cluster.rs, String::replace chains of the escaper, petgraph unwraps outside the contracted functions.'),
- 'C08': ('section 4 (C08)', '^ / $ components are emitted iff the anchor is not disabled (all configurations); rotation of alternatives keeps the language.', 'Placement in the final string and leftmost-first search semantics of the regex crate are not decided.'),
+ 'C01': ('sections 3, 4 (C01), 5 (KF1)', 'For all inputs: union/concatenate never lose a word; the elimination loop of Expression::from returns the right language of the start state for every solution of the equation system; RegExp::from composes the stages (incl. rotation and the fallback alternation); Dfa::insert creates an accepting path for the inserted word and only ever widens labels; case conversion keeps the code-point count; every cluster containing a backslash is split; Display for Grapheme quantifies a whole unit; recreate_graph keeps accepting states (fails on the unchanged tree: KNOWN-FINDING KF1, replayed on the real library each run).', 'The Hopcroft refinement loop, the first (matrix-building) loop of Expression::from, cluster segmentation, the escaper (String::replace chains) and the regex crate parser are assumed stage contracts.'),
+ 'C02': ('sections 3, 4 (C02)', 'For all expression trees: union, concatenate, remove_common_substring are language-exact; the Brzozowski elimination loop is exact for every acyclic system; RegExp::from yields exactly words(clusters) given the stage contracts; recreate_graph creates no new accepting state; operands are parenthesised iff they bind weaker (alternation, concatenation, repetition sites); class metacharacters [ ] \\ - ^ are escaped.', 'Assumed contracts of find_common_substring, remove_substring, new_alternation, new_character_class, is_single_codepoint; Hopcroft merging; range building in format_character_class; anchors as parsed by the regex crate.'),
+ 'C03': ('section 4 (C03)', 'The per-code-point conversion chain equals the documented precedence for every scalar value and all 64 flag subsets; the flag reads and the gate that calls the conversion; a trie edge is reused only for a label with the same text (class tokens are never conflated).', 'map/join plumbing around the closure; is_digit/is_word/is_space equal the tables (discharged under C09).'),
+ 'C04': ('section 4 (C04)', 'Lower-casing happens exactly when the code-point count is preserved and before sorting; the (?i)/(?ix)/(?x) flag text is chosen and rendered correctly, plain and coloured, for all configurations.', 'std to_lowercase vs the regex crate folding tables (known to differ for letters cased after Unicode 15) is not decidable here.'),
+ 'C05': ('section 4 (C05), 5 (KF2)', 'Trie insertion never relabels an edge and reuses an edge only for the same (text, min, max) label (fails on the unchanged tree at the range-merging exit: KNOWN-FINDING KF2, replayed); Display for Grapheme prints {n}/{m,n} after a single atom or a group around the whole unit; conversion runs only on request.', 'Detection and splicing of repeated substrings (convert_repetitions and helpers) and get_parent_states are outside the verifiable subset and NOT decided.'),
+ 'C06': ('section 4 (C06)', 'At every parenthesisation site (alternation/concatenation/repetition operands, quantified graphemes, the outer group) the group is capturing iff requested; the verbose flag text; escape flags are passed in the right order.', 'Verbose-mode rewriting of #, spaces and other whitespace (String::replace), \\u{..} rendering and indentation are NOT decided.'),
+ 'C07': ('section 4 (C07)', 'No unwrap-on-None, out-of-range index (incl. the ndarray accesses of the elimination loop), overflow or violated callee precondition in any function under contract; threshold panics unreachable for positive arguments; CLI parser rejects 0; backslash split rule; class metacharacters escaped.', 'Self-check unwraps (Regex::new is assumed Ok), drain/splice ranges in cluster.rs, the String::replace chains of the escaper, petgraph unwraps in minimize.'),
+ 'C08': ('section 4 (C08)', '^ / $ are emitted iff the anchor is not disabled and placed first/last around the body (all configurations, plain and coloured); the self-check accepts only exactly one match per test case; rotation keeps the language; the fallback alternation denotes exactly the test cases.', 'Leftmost-first search semantics of the regex crate and the length ordering of alternatives are not decided.'),
  'C09': ('section 4 (C09)', 'The three grex tables equal the regex-syntax Perl tables as sets of scalar values (Verus, all 1,112,064 values; z3 witness replayed on failure); is_digit and is_space look-ups equal table membership for every char (Kani, complete: loops bounded by the constant table length, unwinding assertions on); is_word look-up in the thorough tier (37 min, 24 GB).', 'regex-syntax builds \\d \\s \\w from exactly those tables; in the quick tier is_word(c) <=> c in WORD is an assumption.'),
- 'C10': ('sections 3.3, 4 (C10)', 'All pairs of setters commute, boolean setters are idempotent, last value wins for valued setters (for all configs): the config is a function of the call set; the sort comparator is a total order without ties.', 'HashSet iteration order under per-process seeds, threads and separate processes are outside the reach of the installed verifiers and are NOT decided.'),
- 'C11': ('section 4 (C11), 5 (F1)', 'Grapheme::escape: ASCII passthrough; surrogates iff requested and U+10000 <= c <= U+10FFFF inclusive; otherwise \\u{hex} (all scalar values).', 'std encode_utf16 / escape_unicode renderings; closure plumbing in escape_non_ascii_chars; grouping decision in Grapheme::fmt; the decoding clause needs the printer.'),
- 'C12': ('section 4 (C12)', 'After the flag-mapping statements of handle_input the builder config equals config_of(cli) written from the help text, for all 2^17 flag combinations and all thresholds; the threshold parser returns only positive values.', 'clap fills Cli as its attributes say; input channels, CR/LF, exit status and stdout bytes are operating-system behaviour and not decided.'),
- 'C13': ('section 4 (C13)', 'The repetition filter keeps a range iff count > minimum_repetitions (strict, all values).', 'Detection, nested units, the substring-length continue, brace printing.'),
- 'C16': ('sections 3.2, 3.4, 4 (C16)', 'The elimination algebra (union/concatenate/remove_common_substring/constructors) is language-exact; graph re-creation after refinement keeps start state and accepting states (KF1 known finding).', 'Stage contracts S1 (clusters), S2 except insert/recreate_graph, the S3 loop and S4 (printer/parser) are assumed; minimality is not decided.'),
+ 'C10': ('sections 3.3, 4 (C10)', 'All pairs of setters commute, boolean setters are idempotent, last value wins: the config is a function of the call set; RegExp::from lower-cases before it sorts and sorts exactly once; default config.', 'HashSet iteration order under per-process seeds (observed to leak into the output with class conversion), threads and separate processes are outside the reach of the installed verifiers and are NOT decided.'),
+ 'C11': ('section 4 (C11), 5 (F1)', 'Grapheme::escape: ASCII passthrough; surrogates iff requested and U+10000 <= c <= U+10FFFF inclusive; otherwise \\u{hex} (all scalar values); the escaping flags reach escape_regexp_symbols in the right order, also for nested repetitions.', 'std encode_utf16 / escape_unicode renderings; closure plumbing in escape_non_ascii_chars; the decoding clause needs the printer.'),
+ 'C12': ('section 4 (C12)', 'After the flag-mapping statements of handle_input the builder config equals config_of(cli) written from the help text, for all 2^17 flag combinations and all thresholds; the threshold parser returns only positive values; default config.', 'clap fills Cli as its attributes say; input channels, CR/LF, exit status and stdout bytes are operating-system behaviour and not decided.'),
+ 'C13': ('section 4 (C13)', 'The repetition filter keeps a range iff count > minimum_repetitions (strict); the substring-length guard is the strict comparison; Grapheme::from creates no quantifier; conversion is gated by the option only; Display for Grapheme prints braces iff the grapheme is quantified.', 'Detection, nested units, that the guarded continue skips the splice.'),
+ 'C15': ('section 4 (C15)', 'For every component the coloured rendering is the plain rendering with one SGR pair around the visible core (groups: around each parenthesis) and the same line-break structure; to_repr selects by the flag; the flag/anchor/outer-group assembly of Display for RegExp.', 'The colour-aware indenter, colouring inside Expression/Grapheme Display and literal text that resembles an SGR sequence are NOT decided.'),
+ 'C16': ('sections 3, 4 (C16)', 'S2a trie insertion (accepting path, no relabelling: KF2), S2c graph re-creation (KF1), S3 elimination loop (exact), the elimination algebra, the composition in RegExp::from, and the structural printing decisions are under contract; each failing obligation names its stage.', 'Stage contracts S1 (clusters), the Hopcroft loop, the matrix-building loop of S3 and the text-level part of S4 are assumed; minimality is not decided.'),
  'C17': ('section 4 (C17)', 'Every wasm setter has exactly the effect of the library setter of the same name (same spec function), thresholds return Err with the library message iff 0, build delegates: for all setter histories.', 'wasm_bindgen glue, JsValue, `from` array conversion and JS exceptions vs traps are not modelled.'),
 }
 NOT_APPLICABLE = {
- 'C05': 'every mechanism it names (convert_repetitions and helpers: HashMap<Vec<String>,_>, itertools coalesce/chunk_by/tuple_windows, splice; get_parent_states; {n} printing via write!) is outside the Verus subset and Kani does not terminate on it even on concrete inputs; no contract within reach expresses "same language with and without the option" (DESIGN.md section 7)',
- 'C06': 'a property of the printed text under the regex crate parser (String::replace rewriting in verbose mode, group syntax, \\u{..}): format!/write!/replace code Verus rejects and Kani cannot finish; a spec of the regex concrete syntax would itself be the trusted part (DESIGN.md section 7)',
  'C14': 'python.rs is pyo3 glue around two regex::Regex::replace_all calls and is not compiled without pyo3; needs the regex engine and CPython re semantics, neither expressible as a contract here (DESIGN.md section 7)',
- 'C15': 'relational property of two format!-built renderings (18 component variants, recursive Display, colour-aware indenter): string formatting that neither installed verifier can reason about (DESIGN.md section 7)',
 }
 def main():
     checks = []
